@@ -17,6 +17,7 @@ import z3
 
 from pyvc import sym, arrays, harness, loops, npshim, values, deps, engine
 from pyvc.sym import Num, Cx, SBool, SStr, num, sbool, Undecided
+from pyvc import sym
 from contracts import solver as S
 
 PROPS = {"C15"}
@@ -73,8 +74,7 @@ def dependency_defs(run, inp):
     for t in run.__dict__.get("transforms", []):
         d["T%d_%s_re" % (t.tid, t.op)] = deps.value_symbols(t.arg)
         d["T%d_%s_im" % (t.tid, t.op)] = d["T%d_%s_re" % (t.tid, t.op)]
-    for (k, x) in run.int_defs:
-        d[str(k.t)] = deps.value_symbols(x)
+    d["trunc"] = set()      # trunc(x) is an application: its argument's symbols are visited by the traversal
     profs = {"u", "v", "Kx", "Ky", "Kz", "z", "nz"}
     for a in (1, 2):
         for b in (1, 2):
@@ -139,6 +139,101 @@ def generate_solver_level(ctx):
                                  "not_hashed": missing})
                 run.cover("path.miss")
             ctx.explore("solver.S+cache[%s|%s]" % (cfg.name(), "hit" if hit else "miss"), thunk, PROPS)
+
+
+def generate_relational(ctx):
+    """Completeness as a 2-safety statement on VALUES (not only symbols): two footprint requests whose
+    lookup keys are equal return equal results.  Run A discovers which inputs enter the key as themselves;
+    run B shares exactly those inputs with A, takes every other input fresh, and assumes the derived key
+    components equal.  If the key is complete the two specification terms coincide."""
+    if not ctx.wants(PROPS):
+        return
+    ns = S.make_namespace(ctx)
+    st = {}
+    f = harness.define(ctx, ns, "bldfm.solver", "steady_state_transport_solver",
+                       loop_specs={0: S.MeanLoop(st)}, label=S.LABEL)
+    SCALARS = ("xmx", "ymx", "nlx", "nly", "xm", "ym", "p000", "halo", "nx", "ny", "nz", "nlvls", "level")
+    for cfg in S.configs():
+        if not cfg.footprint:
+            continue
+
+        def thunk(run, cfg=cfg):
+            run.scope = "solver.S+cache.rel[%s]" % cfg.name()
+            run.props = set(PROPS)
+            A = S.SInputs(run, cfg, tag="A")
+            st["inp"] = A
+            st["S00"] = lambda: S.S00_of(run, A)
+            cacheA = CacheStub(run, False)
+            outA, logA, _ = S.run_S(ctx, ns, run, A, f, cache=cacheA)
+            if outA.raised or not cacheA.gets:
+                return
+            nA = len(run.int_defs)
+            trA = list(run.__dict__.get("transforms", []))
+            keyA = cacheA.gets[0]
+            flatA = [v for nm in ("domain", "modes", "meas_pt", "halo", "extra") for _, v in _flat(keyA[nm], nm)]
+            direct = set()
+            for v in flatA:
+                if isinstance(v, Num) and not v.concrete and z3.is_const(v.t):
+                    direct.add(str(v.t))
+            # run B: same arrays where the key hashes the whole array (z, profiles; levels via extra), scalars
+            # shared iff they enter the key as themselves
+            B = S.SInputs(run, cfg, tag="B")
+            B.z, B.prof, B.nz = A.z, A.prof, A.nz
+            kd = set()
+            deps.value_symbols(keyA["extra"], kd)
+            if any(s_.startswith("levels") or s_.startswith("level") for s_ in kd):
+                B.levels, B.lev_at, B.nlvls = A.levels, A.lev_at, A.nlvls
+                if hasattr(A, "level"):
+                    B.level = A.level
+            B.q0 = arrays.fresh_array("q0B", [B.ny, B.nx], "float")
+            for nm in SCALARS:
+                va = getattr(A, nm, None)
+                if isinstance(va, Num) and not va.concrete and str(va.t) in direct:
+                    setattr(B, nm, va)
+            if A.halo is None:
+                B.halo = None
+            B.q0 = arrays.fresh_array("q0B", [B.ny, B.nx], "float")
+            st["inp"] = B
+            st["S00"] = lambda: S.S00_of_at(run, B, nA)
+            run.transforms = []
+            cacheB = CacheStub(run, False)
+            outB, logB, _ = S.run_S(ctx, ns, run, B, f, cache=cacheB)
+            if outB.raised or not cacheB.gets:
+                return
+            keyB = cacheB.gets[0]
+            # assume the keys are equal, component by component (arrays hashed whole are shared objects)
+            ok = True
+            for nm in ("domain", "modes", "meas_pt", "halo", "precision", "extra"):
+                fa, fb = _flat(keyA[nm], nm), _flat(keyB[nm], nm)
+                if len(fa) != len(fb):
+                    ok = False
+                    continue
+                for (_, x), (_, y) in zip(fa, fb):
+                    if x is y:
+                        continue
+                    if isinstance(x, arrays.Arr) or isinstance(y, arrays.Arr):
+                        if isinstance(x, arrays.Arr) and isinstance(y, arrays.Arr) and x.ndim == y.ndim:
+                            for ax, ay in zip(x.axes, y.axes):
+                                run.assume(ax.size == ay.size)
+                        continue
+                    run.assume(loops.scalar_eq(x, y))
+            if not ok:
+                return
+            gA, cA, fA = outA.value
+            gB, cB, fB = outB.value
+            # results are real parts of the final transforms of the spectra: equal spectra and equal crops
+            trB = run.transforms
+            if len(trA) != len(trB) or not trA:
+                run.oblige("rel.same-transform-structure", SBool(False), kind="rel")
+                return
+            for nm, ta, tb in (("conc", trA[-2], trB[-2]), ("flx", trA[-1], trB[-1])):
+                loops.oblige_equal(run, "rel.equal-keys-give-equal-spectrum." + nm, tb.arg, ta.arg, kind="rel")
+            (pxA, _), (pyA, _) = run.int_defs[0], run.int_defs[1]
+            (pxB, _), (pyB, _) = run.int_defs[nA], run.int_defs[nA + 1]
+            run.oblige("rel.equal-keys-give-equal-crop", (pxA == pxB) & (pyA == pyB) & (A.nx == B.nx) & (A.ny == B.ny), kind="rel")
+            for nm, x, y in (("X", gA[0], gB[0]), ("Y", gA[1], gB[1]), ("Z", gA[2], gB[2])):
+                loops.oblige_equal(run, "rel.equal-keys-give-equal-grid." + nm, y, x, kind="rel")
+        ctx.explore("solver.S+cache.rel[%s]" % cfg.name(), thunk, PROPS)
 
 
 # ===================================================================== the cache class itself
@@ -320,6 +415,17 @@ def generate_class_level(ctx):
                 run.oblige("xpost.corrupt-is-miss", SBool(v is None), kind="xpost")
         ctx.explore("cache.get[%s]" % state, t_get, PROPS, max_paths=4000)
 
+    def t_put_over(run):
+        # an unreadable entry is a miss; the solve that follows must REPLACE it, or the request never hits
+        ns, cls, fs, stored = build(run, "corrupt")
+        run.scope = "cache.GreensFunctionCache.put[entry exists]"
+        ka = key_inputs(run)
+        c = cls("dir")
+        grid = (stored["X"], stored["Y"], stored["Z"])
+        c.put(*[ka[a] for a in ARGS[:-1]], grid, stored["conc"], stored["flx"], extra=ka["extra"])
+        run.oblige("overwrites-an-existing-entry", SBool(len(fs.saved) == 1), kind="post")
+    ctx.explore("cache.put[exists]", t_put_over, PROPS)
+
     def t_put(run):
         ns, cls, fs, stored = build(run, "absent")
         run.scope = "cache.GreensFunctionCache.put"
@@ -341,4 +447,5 @@ def generate_class_level(ctx):
 
 def generate(ctx):
     generate_solver_level(ctx)
+    generate_relational(ctx)
     generate_class_level(ctx)
